@@ -40,7 +40,7 @@ _T = {
  "C07": ("range rules: ends as written, ordering guards, 12h / next-day wrap, 0 < length <= 24h; auxiliary inductive invariant on date-less clock ranges", "A-dateutil, A-py." + BR),
  "C08": ("duration rules: amount and unit as written; date + N units by calendar arithmetic; N-days consistency", "A-dateutil, A-regex, A-py." + BR),
  "C09": ("span clause: rule wrapper, latent post-processing, apply_rule and RegexMatch.__init__ keep an exact span (span-covers-arguments, span-preserved, span-ends-at-the-last-non-blank-character); RegLan lemma per pattern: no word of L(p) starts with a blank; per pattern, decided on the parse tree of the real pattern string: no unguarded letter run reaches across a blank inside the match to the edge of the match (patterns that have such runs are examined run by run against adversarial inert neighbour words, BOUNDED); length term of the score is a constant shift", "resolution invariance under inert context is relational through regex engine + ranking: the lemma 'matches on the embedded text = matches on the expression' is decided statically only for patterns without edge runs, otherwise bounded (adversarial inert words x expression pool through the real ctparse) together with the context bridge (corpus and grammar expressions among 0-3 inert words)."),
- "C10": ("_get_labels executed on abstract text: result is the order-preserving map m -> m.replace('#','') over re.findall(P, txt); RegLan lemmas: every valid hashtag is found whole by the finding pattern and removed whole by the stripping pattern, which is the same constant on both paths and touches only '#'-words; ctparse() no-match branch computes subject and labels by the very pipeline term the prefix of _ctparse computes (terms compared structurally)", "text processing by re/regex/str methods is uninterpreted (A-regex, A-lib); 'drops every word inside a match the resolution was built from' and invariance of the resolution under hashtags are not covered (relational, through the regex engine and ranking)."),
+ "C10": ("_get_labels executed on abstract text: result is the order-preserving map m -> m.replace('#','') over re.findall(P, txt); RegLan lemmas: every valid hashtag is found whole by the finding pattern and removed whole by the stripping pattern, which is the same constant on both paths and touches only '#'-words; ctparse() no-match branch computes subject and labels by the very pipeline term the prefix of _ctparse computes (terms compared structurally)", "text processing by re/regex/str methods is uninterpreted (A-regex, A-lib); 'drops every word inside a match the resolution was built from, keeps the inert words in order' is a BOUNDED stand-in on the real ctparse (ctparse._ctparse.subject[bounded]: inert texts x multi-word expressions in both word orders x positions, judged when the resolution spans the whole expression; listed under coverage.bounded, not counted as proved); invariance of the resolution under hashtags is not covered (relational, through the regex engine and ranking)."),
  "C13": ("timers.timeout/_tt executed with a ghost list of clock reads: timeout 0 never reads the clock nor raises, otherwise exactly one read and raise iff now-start > timeout; ghost work counter over _ctparse/_regex_stack: every loop over an N-sized collection starts each iteration with the deadline check, work between checks is independent of N; all check sites inside the try whose handler only ends the stream; check result unused (prefix lemma); ctparse()/ctparse_gen forward timeout unchanged", "work = from_regex_matches/apply_rule/score/score_final calls and the N-sized collections are sidecar annotations; real clock assumed monotone; counter-models replayed with a virtual clock patched into ctparse.timers.perf_counter."),
  "C14": ("ctparse() executed on a stream of ANY length N >= 1 (list of symbolic length, scores an uninterpreted function of the element): the result is a stream element and no element scores higher; on streams of 0..3 concrete candidates additionally: empty resolution iff empty stream, every option forwarded unchanged to the stream (also documented defaults); ctparse_gen yields every candidate of _ctparse in order", "list.sort enters the any-length proof through its trusted contract (the new order is a permutation of the old one under which the keys ascend: A-py); the 2- and 3-element units execute a stable insertion sort with symbolic keys and are listed as bounded (they give replayable counter-models when the selection is broken); floats as reals; emission-dedup invariant of _ctparse: see C14 emission unit; finiteness of NB scores: C16."),
  "C11": ("bounded, exhaustive for single code points: the real _preprocess_string equals the stated normalisation for every code point U+0000..U+10FFFF as separator and for all strings up to length 5 (thorough: 7) over class representatives (idempotent, trimmed, runs collapsed); deductive part: every rule regex is compiled as defines+(?i)+pattern with VERSION1, and the am/pm clock contract holds for every letter case", "no Python-level control flow to put a contract on (two calls into the C regex engine): claimed as exploration, not proof. Equality of resolutions of case/separator variants end-to-end is A-regex + A-rank (not covered). Code points on which the regex module's Unicode tables and unicodedata disagree are listed as version skew."),
